@@ -2317,6 +2317,10 @@ def h_dot(ev, pos, kw, st, node):
     a, b = ev.as_num(pos[0], True), ev.as_num(pos[1], True)
     if a is None or b is None or a.length is None or b.length is None or not (a.length == b.length):
         return None
+    from .dtypes import dtype_of
+    ta = dtype_of(a)
+    if ta is not None and ta[0] == 'same' and a.r == b.r:
+        ev.emit('selfpower', st, node, base=a, tag=ta, op='dot')        # sum of squares accumulated in the caller's element type (DT3)
     return Num(sym.mk_sum(a.r * b.r, a.length))
 
 
